@@ -36,17 +36,14 @@ theorem chunkDurations_nonneg (rate : ℝ) (hr : 0 < rate) (frames : List ℕ) :
 
 /-- **clocks keep their real-time speed at every device rate**: two devices at rates `r₁`, `r₂` that have
     rendered the same real time (`n₁ / r₁ = n₂ / r₂`, any chunkings) show the same clock time. -/
-theorem C16_clock_rate_independent (fuel : ℕ) (c : Clock ℝ) (info : Info ℝ) (v r₁ r₂ : ℝ)
+theorem C16_clock_rate_independent (c : Clock ℝ) (info : Info ℝ) (v r₁ r₂ : ℝ)
     (fr₁ fr₂ : List ℕ) (hr₁ : 0 < r₁) (hr₂ : 0 < r₂)
     (htick : c.ticking = true) (hwf : Clock.WF c) (hspeed : SteadySpeed c v)
     (hvalid : c.speed.raw.Valid) (hv : 0 ≤ v)
-    (hf₁ : ∀ dt ∈ chunkDurations r₁ fr₁, v * dt + 1 ≤ (fuel : ℝ))
-    (hf₂ : ∀ dt ∈ chunkDurations r₂ fr₂, v * dt + 1 ≤ (fuel : ℝ))
     (hsame : ((fr₁.sum : ℕ) : ℝ) / r₁ = ((fr₂.sum : ℕ) : ℝ) / r₂) :
-    ∃ c₁ c₂, c.run fuel info (chunkDurations r₁ fr₁) = some c₁ ∧ c.run fuel info (chunkDurations r₂ fr₂) = some c₂
-      ∧ c₁.state.time = c₂.state.time := by
-  apply C05_partition_independent fuel c info v _ _ htick hwf hspeed hvalid hv
-    (chunkDurations_nonneg r₁ hr₁ fr₁) (chunkDurations_nonneg r₂ hr₂ fr₂) hf₁ hf₂
+    (c.run info (chunkDurations r₁ fr₁)).state.time = (c.run info (chunkDurations r₂ fr₂)).state.time := by
+  apply C05_partition_independent c info v _ _ htick hwf hspeed hvalid hv
+    (chunkDurations_nonneg r₁ hr₁ fr₁) (chunkDurations_nonneg r₂ hr₂ fr₂)
   rw [chunkDurations_sum, chunkDurations_sum]
   rw [div_eq_mul_one_div, div_eq_mul_one_div ((fr₂.sum : ℕ) : ℝ)] at hsame
   exact hsame
